@@ -92,7 +92,21 @@ type job struct {
 	depth   int
 	shard   int
 	scaled  bool // memory: order-list compaction thresholds lowered (qcheck.Spec.ScaleCompaction)
+	prefix  int  // > 0: start from qcheck.RichPrefixes(...)[prefix-1] with the alphabet alphaRich
 }
+
+// alphaRich: the alphabet of the searches that start from non-initial states: settlements and every operator
+// transition that makes a parked message ready again, fewer clock steps.
+func alphaRich() qcheck.Alpha {
+	a := alpha()
+	a.EnqPast = false
+	a.Deq = []qcheck.DeqSpec{{Batch: 2, TTL: ttl}, {Batch: 100, TTL: ttl}, {Route: "/r1", Batch: 1, TTL: ttl}}
+	a.LeaseOps = []string{"ack", "nack", "nackd", "dead"}
+	a.Operator = []string{"requeue", "cancel", "resume", "rqdead"}
+	a.Ticks = []time.Duration{ttl, 5 * sec}
+	return a
+}
+
 
 const shards = 6
 
@@ -105,13 +119,22 @@ func TestCheck(t *testing.T) {
 	var jobs []job
 	for s := 0; s < shards; s++ {
 		// memory: with the order-list compaction thresholds lowered, so that compactions happen inside the histories
-		jobs = append(jobs, job{"memory", runner.Pick(r, 6, 7), s, true}, job{"sqlite", runner.Pick(r, 4, 6), s, false})
+		jobs = append(jobs, job{"memory", runner.Pick(r, 6, 7), s, true, 0}, job{"sqlite", runner.Pick(r, 4, 6), s, false, 0})
+	}
+	for pi := range qcheck.RichPrefixes(alphaRich()) {
+		jobs = append(jobs, job{"memory", runner.Pick(r, 5, 6), 0, true, pi + 1}, job{"sqlite", runner.Pick(r, 4, 5), 0, false, pi + 1})
 	}
 	budget := runner.Pick(r, 60*time.Second, 10*time.Minute)
 	if ji, ok := runner.Job(); ok {
 		j := jobs[ji]
-		spec := qcheck.Spec{Name: "c05", Backend: j.backend, Cfg: qmodel.Config{}, Alpha: alpha(), Depth: j.depth, Workers: 3,
-			RootShard: j.shard, RootShards: shards, ScaleCompaction: j.scaled,
+		al, nsh := alpha(), shards
+		var pre qcheck.Prefix
+		if j.prefix > 0 {
+			al, nsh = alphaRich(), 1
+			pre = qcheck.RichPrefixes(al)[j.prefix-1]
+		}
+		spec := qcheck.Spec{Name: "c05", Backend: j.backend, Cfg: qmodel.Config{}, Alpha: al, Depth: j.depth, Workers: 3,
+			RootShard: j.shard, RootShards: nsh, ScaleCompaction: j.scaled, Prefix: pre.Ops, PrefixName: pre.Name,
 			MaxTrans: runner.Pick(r, int64(3_000_000), int64(40_000_000)), Deadline: time.Now().Add(budget), Extra: readiness}
 		res := qcheck.Run(spec)
 		qcheck.Report(r, spec, res)
